@@ -92,7 +92,13 @@ fn item_inner(rng: &mut Rng, sc: &mut Scene, depth: usize) -> (X, Option<B>) {
             let wrapper = *rng.pick(&["defs", "symbol", "specs", "marker", "pattern", "mask"]);
             (X::node(wrapper, &[("id", &id)], vec![n]), None)
         }
-        12 => { let (x, y) = (g(rng), g(rng)); (X::leaf("text", &[("id", &id), ("x", &f(x)), ("y", &f(y)), ("text", "label")]), Some([x, y, x, y])) }
+        12 => {
+            // a standalone text counts by its anchor point - also when that point is the origin, where its
+            // box is (0, 0, 0, 0): a box like any other, wherever it stands among its siblings
+            let (x, y) = if rng.chance(1, 3) { (0.0, 0.0) } else { (g(rng), g(rng)) };
+            if (x, y) == (0.0, 0.0) && rng.chance(1, 2) { (X::leaf("rect", &[("id", &id), ("x", "0"), ("y", "0"), ("width", "0"), ("height", "0")]), Some([0.0, 0.0, 0.0, 0.0])) }
+            else { (X::leaf("text", &[("id", &id), ("x", &f(x)), ("y", &f(y)), ("text", "label")]), Some([x, y, x, y])) }
+        }
         _ => {
             // a shape with text: the generated text adds nothing
             let (x, y, w, h) = (g(rng), g(rng), s(rng), s(rng));
@@ -183,6 +189,12 @@ fn gen_case(rng: &mut Rng) -> Case {
         }
     }
     let k = 1 + rng.below(6);
+    if rng.chance(1, 8) {
+        // the first thing with a box is a text anchored at the origin
+        sc.n += 1;
+        sc.nodes.push(X::leaf("text", &[("id", &format!("o{}", sc.n)), ("x", "0"), ("y", "0"), ("text", "origin")]));
+        sc.extent = union(sc.extent, Some([0.0, 0.0, 0.0, 0.0]));
+    }
     for _ in 0..k {
         let (n, b) = item(rng, &mut sc, 0);
         sc.nodes.push(n);
